@@ -188,45 +188,51 @@ def _infeasible(rows, max_rows=4000):
 
 
 def entails(G, e):
-    """G: iterable of Lin (each >= 0);  proves e >= 0."""
-    return _infeasible(list(G) + [(-e) - 1])
+    """G: iterable of Lin (each >= 0);  proves e >= 0 (only the cone of influence of e is used)."""
+    if e.is_const():
+        return e.c >= 0
+    return _infeasible(cone(G, e) + [(-e) - 1])
 
 
-def consistent_model(G, extra, scope=(-3, 8), atoms_first=(), limit=400000, fixed=None):
-    """search an integer model of G + extra over the scope.  Returns dict or None.
-    `None` can also mean the search limit was hit (reported by caller as 'no model found')."""
+class SearchLimit(Exception):
+    pass
+
+
+def consistent_model(G, extra, scope=(-3, 8), atoms_first=(), limit=300000, fixed=None):
+    """search an integer model of G + extra over the scope.  Returns dict or None (no model in the scope);
+    raises SearchLimit when the enumeration budget is exhausted."""
     rows = list(G) + list(extra)
     atoms = set()
     for r in rows:
         atoms |= r.atoms()
     fixed = fixed or {}
+    # order atoms so that constraints become checkable early: most constrained first
+    deg = {a: sum(1 for r in rows if a in r.t) for a in atoms}
     order = [a for a in atoms_first if a in atoms and a not in fixed] + sorted(
-        a for a in atoms if a not in atoms_first and a not in fixed)
+        (a for a in atoms if a not in atoms_first and a not in fixed), key=lambda a: (-deg[a], a))
     lo, hi = scope
     asg = dict(fixed)
     count = [0]
-    # index rows by last atom in order for early pruning
     pos = {a: i for i, a in enumerate(order)}
     buckets = [[] for _ in order]
-    ground = []
     for r in rows:
         free = [a for a in r.atoms() if a not in fixed]
         if not free:
-            ground.append(r)
+            if r.eval(asg) < 0:
+                return None
         else:
             buckets[max(pos[a] for a in free)].append(r)
-    for r in ground:
-        if r.eval(asg) < 0:
-            return None
+    # try values near zero first
+    vals = sorted(range(lo, hi + 1), key=lambda v: (abs(v), v))
 
     def rec(i):
         if i == len(order):
             return True
         a = order[i]
-        for v in range(lo, hi + 1):
+        for v in vals:
             count[0] += 1
             if count[0] > limit:
-                return False
+                raise SearchLimit()
             asg[a] = v
             ok = True
             for r in buckets[i]:
@@ -243,17 +249,40 @@ def consistent_model(G, extra, scope=(-3, 8), atoms_first=(), limit=400000, fixe
     return None
 
 
+def cone(G, e):
+    """constraints of G transitively sharing atoms with e (cone of influence)"""
+    rel = set(e.atoms())
+    G = list(G)
+    changed = True
+    while changed:
+        changed = False
+        for g in G:
+            a = g.atoms()
+            if a & rel and not a <= rel:
+                rel |= a
+                changed = True
+    return [g for g in G if g.atoms() and g.atoms() <= rel]
+
+
 def find_counter_model(G, e, scope=(-3, 8), atoms_first=()):
     """model of G and e <= -1"""
     return consistent_model(G, [(-e) - 1], scope=scope, atoms_first=atoms_first)
 
 
 def decide(G, e, scope=(-3, 8)):
-    """-> ('PROVED', None) | ('REFUTED', model) | ('BOUNDED', None)
-    BOUNDED: not proved by FM but no counter-model in the scope."""
-    if entails(G, e):
+    """-> ('PROVED', None) | ('REFUTED', model) | ('BOUNDED', None) | ('UNKNOWN', None)
+    BOUNDED: not proved by FM but no counter-model in the scope; UNKNOWN: search budget exhausted.
+    Only the cone of influence of e in G is used (sound for both directions when the rest of G is satisfiable,
+    which holds for the constraints of a feasible path)."""
+    if e.is_const():
+        return ("PROVED", None) if e.c >= 0 else ("REFUTED", {})
+    Gc = cone(G, e)
+    if entails(Gc, e):
         return ("PROVED", None)
-    m = find_counter_model(G, e, scope=scope)
+    try:
+        m = find_counter_model(Gc, e, scope=scope)
+    except SearchLimit:
+        return ("UNKNOWN", None)
     if m is not None:
         return ("REFUTED", m)
     return ("BOUNDED", None)
